@@ -6,6 +6,7 @@ Trees are written in prefix form, space separated:
 import Mathy.Model.Rules
 import Mathy.Model.Parser
 import Mathy.Model.Print
+import Mathy.Model.PrintStr
 import Mathy.Model.ParserObj
 import Mathy.Model.Tree
 import Mathy.Model.Layout
